@@ -46,6 +46,8 @@ type Term struct {
 	Fields []string
 	// Fun: for a function value, what it denotes (funcval.go)
 	Fun *FuncVal
+	// Keys: for a map literal with constant keys, the key terms of Args (a switch written as data)
+	Keys []*Term
 	// ST: for a struct literal value, its struct type (a struct-valued field assigned as a whole is written field-wise)
 	ST *types.Struct
 }
